@@ -4,6 +4,9 @@
  R17.2 every comparison of a mailbox name with "inbox" is case-insensitive
  R17.3 validate-before-mutate for namespace operations (shares C05 R5.5)
  R17.4 \\HasChildren is not derived from the pattern-filtered result set
+ R17.5 the LIST matching path has a case-insensitive provision for INBOX (stored as 'inbox')
+ R17.6 the children of the inbox are looked for under its stored name
+ R17.7 a reference's trailing hierarchy delimiter survives normalisation (parser records it, do_list restores it)
 """
 from __future__ import annotations
 
@@ -238,10 +241,167 @@ def r17_4(ctx):
         ctx.ok("R17.4", where(fi), "\\HasChildren decision consults a pattern-independent source")
 
 
+LIST_PATH = ("mbox.Mailbox._mbox_pattern_to_re", "mbox.Mailbox.list", "mbox.Mailbox._list_simple", "mbox.Mailbox._list_with_recursivematch", "client.Authenticated.do_list")
+
+
+def r17_5(ctx):
+    """The inbox is stored as 'inbox' and LIST patterns are turned into a regular expression that is matched against the
+    stored names.  Unless something on that path is case-insensitive with respect to the inbox, `LIST "" "INBOX"` cannot
+    match it (necessary condition, value-independent)."""
+    p = ctx.p
+    hits = []
+    n_re = 0
+    for key in LIST_PATH:
+        fi = p.func(key)
+        ctx.analysed(fi)
+        for n in body_walk(fi.node):
+            if isinstance(n, ast.Call) and norm(n.func) in ("re.match", "re.fullmatch", "re.search", "re.compile"):
+                n_re += 1
+                flags = [a for a in list(n.args[2:] if norm(n.func) != "re.compile" else n.args[1:]) + [k.value for k in n.keywords if k.arg == "flags"]]
+                if any("IGNORECASE" in norm(f) or norm(f) in ("re.I",) for f in flags):
+                    # only counts if the subject or pattern involves the inbox name or the client's pattern
+                    hits.append((fi, n, "case-insensitive regular expression test"))
+            if isinstance(n, ast.Constant) and isinstance(n.value, str) and "(?i" in n.value and "inbox" in n.value.lower():
+                hits.append((fi, n, f"inline case-insensitive group {n.value!r}"))
+            if isinstance(n, ast.Compare) and len(n.ops) == 1 and isinstance(n.ops[0], ast.Eq):
+                sides = [n.left, n.comparators[0]]
+                c = [x for x in sides if isinstance(x, ast.Constant) and isinstance(x.value, str) and x.value.lower() == "inbox"]
+                o = [x for x in sides if isinstance(x, ast.Call) and call_name(x) in ("lower", "casefold", "upper")]
+                if c and o:
+                    # the subject must be the client's pattern (a parameter of the pattern->regex function), not a stored name
+                    recv = call_recv(o[0])
+                    if fi.key == "mbox.Mailbox._mbox_pattern_to_re" and isinstance(recv, ast.Name) and recv.id in {a.arg for a in fi.node.args.args}:
+                        hits.append((fi, n, f"{norm(n)} on the client's pattern"))
+    # a pattern list gets the same treatment in the parser (_p_list_mailbox_pattern lower-cases a whole-name INBOX), but a
+    # single pattern does not: the provision has to be on the matching path
+    pat = p.func("mbox.Mailbox._mbox_pattern_to_re")
+    if hits:
+        fi, n, how = hits[0]
+        ctx.ok("R17.5", where(fi), f"INBOX is matched case-insensitively on the LIST path: {how}")
+    else:
+        ctx.bad(
+            "R17.5", pat.module, pat.qual, "no case-insensitive provision for INBOX on the LIST path",
+            "the inbox is stored as `inbox` and the LIST pattern becomes a case-sensitive regular expression over the stored "
+            "names: `LIST \"\" \"INBOX\"` (what most clients send) and `LIST \"\" InBox` do not return the inbox",
+            pat.node.lineno,
+        )
+
+
+def r17_6(ctx):
+    """\\HasChildren of the inbox: the result name is rewritten to the display form INBOX; the names of its children are
+    stored under `inbox/`.  The prefix used to look for children must be the stored form."""
+    p = ctx.p
+    fi = p.func("client.Authenticated.do_list")
+    tests = []
+    for n in body_walk(fi.node):
+        if isinstance(n, ast.Call) and call_name(n) == "startswith" and n.args and isinstance(n.args[0], ast.BinOp) and isinstance(n.args[0].right, ast.Constant) and n.args[0].right.value == "/":
+            tests.append(n)
+    if not tests:
+        ctx.ok("R17.6", where(fi), "no prefix test for children in do_list (stored attributes are reported)", nontrivial=False)
+        return
+    for t in tests:
+        pre = t.args[0].left
+        if not isinstance(pre, ast.Name):
+            ctx.ok("R17.6", where(fi), f"{norm(t)}: prefix is not a plain local", nontrivial=False)
+            continue
+        # is the prefix variable in display form?  (bound by a loop over `results`, whose names were display-mapped)
+        display_mapped = _assigned_display_form(fi, pre.id) or _loop_var_over_display(fi, pre.id)
+        stored_again = any(
+            isinstance(s_, ast.Assign) and norm(s_.targets[0]) == pre.id and isinstance(s_.value, ast.IfExp) and isinstance(s_.value.body, ast.Constant) and s_.value.body.value == "inbox"
+            for s_ in body_walk(fi.node)
+        ) or any(
+            isinstance(s_, ast.Assign) and norm(s_.targets[0]) == pre.id and isinstance(s_.value, ast.Call) and call_name(s_.value) == "lower"
+            for s_ in body_walk(fi.node)
+        )
+        # ... or the collection is mapped to display form as a whole prefix (not just the exact name)
+        if display_mapped and not stored_again:
+            ctx.bad(
+                "R17.6", fi.module, fi.qual, norm(t, 80),
+                f"children are looked for under `{pre.id} + '/'` where {pre.id} is the display form INBOX, but the children of the inbox "
+                "are stored as `inbox/...`: INBOX is always reported \\HasNoChildren",
+                t.lineno,
+            )
+        else:
+            ctx.ok("R17.6", where(fi), f"{norm(t, 60)}: prefix `{pre.id}` is in stored form")
+
+
+def _loop_var_over_display(fi, name) -> bool:
+    """`for name, .. in results` where results is filled with names that were display-mapped (INBOX)."""
+    for s in body_walk(fi.node):
+        if isinstance(s, (ast.For, ast.AsyncFor)) and name in {x.id for x in ast.walk(s.target) if isinstance(x, ast.Name)} and isinstance(s.iter, ast.Name):
+            coll = s.iter.id
+            # position of `name` in the target tuple
+            elts = s.target.elts if isinstance(s.target, ast.Tuple) else [s.target]
+            idx = [i for i, e in enumerate(elts) if isinstance(e, ast.Name) and e.id == name]
+            for c in calls_in(fi.node):
+                if call_name(c) == "append" and isinstance(call_recv(c), ast.Name) and call_recv(c).id == coll and c.args and isinstance(c.args[0], ast.Tuple) and idx:
+                    el = c.args[0].elts[idx[0]] if idx[0] < len(c.args[0].elts) else None
+                    if isinstance(el, ast.Name) and _assigned_display_form(fi, el.id):
+                        return True
+    return False
+
+
+def r17_7(ctx):
+    """A reference that ends with the hierarchy delimiter names a level of hierarchy.  _p_mailbox normalises the reference
+    with os.path.normpath, which drops a trailing '/': then either the parser puts it back, or it records the fact and
+    do_list puts it back before the reference and the pattern are concatenated."""
+    p = ctx.p
+    pm = p.func("parse.IMAPClientCommand._p_mailbox")
+    dl = p.func("client.Authenticated.do_list")
+    ctx.analysed(pm)
+    ctx.analysed(dl)
+    normalises = any(isinstance(c, ast.Call) and call_name(c) == "normpath" for c in calls_in(pm.node))
+    if not normalises:
+        ctx.ok("R17.7", where(pm), "the reference is not normalised (its trailing delimiter survives)", nontrivial=False)
+        return
+    # (a) the parser re-appends:  name += "/" / name = name + "/"  under a test of endswith("/")
+    def appends_slash(fi):
+        out = []
+        for s_ in body_walk(fi.node):
+            if isinstance(s_, ast.AugAssign) and isinstance(s_.op, ast.Add) and isinstance(s_.value, ast.Constant) and s_.value.value == "/":
+                out.append(s_)
+            if isinstance(s_, ast.Assign) and isinstance(s_.value, ast.BinOp) and isinstance(s_.value.op, ast.Add) and isinstance(s_.value.right, ast.Constant) and s_.value.right.value == "/" and norm(s_.value.left) == norm(s_.targets[0]):
+                out.append(s_)
+        return out
+
+    recorded = None
+    for s_ in body_walk(pm.node):
+        if isinstance(s_, ast.Assign) and isinstance(s_.targets[0], ast.Attribute) and norm(s_.targets[0].value) == "self" and isinstance(s_.value, ast.Call) and call_name(s_.value) == "endswith" and s_.value.args and isinstance(s_.value.args[0], ast.Constant) and s_.value.args[0].value == "/":
+            # must be taken from the raw name, i.e. before the normpath statement
+            np_line = min(c.lineno for c in calls_in(pm.node) if call_name(c) == "normpath")
+            if s_.lineno < np_line:
+                recorded = s_.targets[0].attr
+    if appends_slash(pm) and any("endswith" in norm(x, 300) or "is_level" in norm(x, 300) for x in body_walk(pm.node) if isinstance(x, ast.If) and any(a in walk_no_nested(x) for a in appends_slash(pm))):
+        ctx.ok("R17.7", where(pm), "the parser puts the trailing delimiter of a reference back after normalising it")
+        return
+    if recorded:
+        par = parmap(dl)
+        for a in appends_slash(dl):
+            cur = a
+            while cur in par:
+                cur = par[cur]
+                if isinstance(cur, ast.If) and f"cmd.{recorded}" in norm(cur.test, 300):
+                    # the variable must be what Mailbox.list gets as reference
+                    tgt = norm(a.target if isinstance(a, ast.AugAssign) else a.targets[0])
+                    for c in calls_in(dl.node):
+                        if norm(c.func) == "Mailbox.list" and c.args and norm(c.args[0]) == tgt:
+                            ctx.ok("R17.7", where(dl), f"the parser records `{recorded}` from the raw reference; do_list restores the delimiter on `{tgt}` before Mailbox.list")
+                            return
+    ctx.bad(
+        "R17.7", dl.module, dl.qual, "reference level delimiter lost",
+        "the LIST reference is normalised with os.path.normpath (which drops a trailing '/') and nothing puts the delimiter "
+        "back: `LIST \"a/\" \"%\"` becomes the pattern `a%` and returns a, ab, ... instead of the children of a",
+        dl.node.lineno,
+    )
+
+
 def run(ctx):
     r17_1(ctx)
     r17_2(ctx)
     r17_4(ctx)
+    r17_5(ctx)
+    r17_6(ctx)
+    r17_7(ctx)
     from . import c05
     c05.r5_5(ctx)
     ctx.note("R17.3 validate-before-mutate for create/delete/rename is decided by C05 R5.5")
